@@ -6,6 +6,10 @@ OVERRIDES = {
     # the design round misread this operator mutant as `% 1001`; it divides by 1001:
     # y=0 and y=1000 both map to 000/000/000 -> not injective -> must be reported
     'G-C05-CONST-int-path-L113': {'expect': 'report', 'rule': 'C05.a', 'props': ['C05']},
+    # ProgressLog.log_step only prints to the console; the resumable progress is stored by log_progress, which is
+    # called from report_progress in the walk.  An additional log_step before the put changes no stored progress,
+    # so the design round's "must report" was wrong: behaviour-preserving for the statement.
+    'C11-progress-before-put': {'expect': 'silent', 'props': None, 'rule': None},
 }
 
 
@@ -1081,4 +1085,70 @@ EXTRA = [
     M('M-C18d-escape-html-keeps-quotes', 'mapproxy/util/escape.py', """    data = data.replace('"', '')\n""", "", 'C18.d'),
     M('M-C18e-plain-as-html', 'mapproxy/exception.py', "class PlainExceptionHandler(ExceptionHandler):\n    mimetype = 'text/plain'", "class PlainExceptionHandler(ExceptionHandler):\n    mimetype = 'text/html'", 'C18.e'),
     M('M-C18g-status-418', 'mapproxy/request/tile.py', "    mimetype = 'text/xml'\n    status_code = 404", "    mimetype = 'text/xml'\n    status_code = 418", 'C18.g'),
+    # ---------------------------------------------------------------- C11
+    M('M-C11a-report-after-subtree', 'mapproxy/seed/seeder.py', """        if current_level in levels and current_level <= self.report_till_level:
+            self.report_progress(current_level, cur_bbox)
+
+        if not self.seed_progress.running():""", """        if not self.seed_progress.running():""", 'C11.a', 'progress never reported before the subtree'),
+    M('M-C11a-progress-direct-write', 'mapproxy/seed/util.py', "write_atomic(self.filename, pickle.dumps(self.status))",
+      "open(self.filename, 'wb').write(pickle.dumps(self.status))", 'C11.a|C06.a|C06.e'),
+    M('M-C11b-skip-ge', 'mapproxy/seed/seeder.py', """            if old > current:
+                return True
+        return False""", """            if old >= current:
+                return True
+        return False""", 'C11.b'),
+    E('E-C11b-swapped', 'mapproxy/seed/seeder.py', """            if old > current:
+                return True
+        return False""", """            if current < old:
+                return True
+        return False""", 'swapped operands'),
+    M('M-C11b-equal-skipped', 'mapproxy/seed/seeder.py', """            if old > current:
+                return True
+        return False
+
+    def running(self):""", """            if old > current:
+                return True
+        return True
+
+    def running(self):""", 'C11.b'),
+    M('M-C11b-recurse-always-skip', 'mapproxy/seed/seeder.py', """                    if self.seed_progress.already_processed():
+                        self.seed_progress.step_forward()
+                    else:
+                        self._walk(sub_bbox, levels, current_level=current_level+1,""", """                    if not self.seed_progress.already_processed():
+                        self.seed_progress.step_forward()
+                    else:
+                        self._walk(sub_bbox, levels, current_level=current_level+1,""", 'C11.b'),
+    M('M-C11c-drop-intersecting', 'mapproxy/seed/seeder.py', """            if not process:
+                continue
+""", """            if not process or intersection == INTERSECTS:
+                continue
+""", 'C11.c'),
+    M('M-C11c-filter-precedence', 'mapproxy/seed/seeder.py', """            elif self.handle_uncached:
+                handle_tiles = [t for t in handle_tiles if
+                                t is not None and
+                                not self.tile_mgr.is_cached(t)]""", """            elif self.handle_uncached:
+                handle_tiles = [t for t in handle_tiles if
+                                t is not None and
+                                self.tile_mgr.is_cached(t)]""", 'C11.c'),
+    M('M-C11c-process-returns-early', 'mapproxy/seed/seeder.py', """                    if not alive:
+                        log.warning('no workers left, stopping')
+                        raise SeedInterrupted
+                    continue""", """                    if not alive:
+                        log.warning('no workers left, stopping')
+                        raise SeedInterrupted
+                    break""", 'C11.c'),
+    M('M-C11d-intersects-none', 'mapproxy/seed/seeder.py', """class SeedTask(object):
+    def __init__(self, md, tile_manager, levels, refresh_timestamp, refresh_all, coverage):""", """NONE = 2
+
+
+class SeedTask(object):
+    def __init__(self, md, tile_manager, levels, refresh_timestamp, refresh_all, coverage):""", 'C11.d', 'NONE becomes truthy: nothing is filtered'),
+    M('M-C11d-all-subtiles-on-intersects', 'mapproxy/seed/seeder.py', """                if intersection == CONTAINS:
+                    all_subtiles = True
+                else:
+                    all_subtiles = False""", """                if intersection != NONE:
+                    all_subtiles = True
+                else:
+                    all_subtiles = False""", 'C11.d'),
+    M('M-C11d-limit-sub-bbox-axis', 'mapproxy/seed/util.py', "    miny = max(bbox[1], sub_bbox[1])", "    miny = max(bbox[1], sub_bbox[0])", 'C11.d|C03.g'),
 ]
